@@ -13,6 +13,7 @@ mod xsolve;
 mod lu;
 mod xpy;
 mod families;
+mod xradau;
 
 fn main() {
     let args: Vec<String> = std::env::args().collect();
@@ -30,6 +31,7 @@ fn main() {
         "xsolve" => xsolve::run(rest),
         "xlu" => lu::run(rest),
         "xpy" => xpy::run(rest),
+        "xradau" => xradau::run(rest),
         "sym-check" => families::sym(rest),
         "mass-check" => families::mass(rest),
         "accuracy-check" => families::accuracy(rest),
